@@ -1064,6 +1064,54 @@ def rule_r10(prog, res):
     res.floor('R10', 'AnyDict pass-through stores', m, 1)
 
 
+def rule_r11(prog, res):
+    res.rule('R11', 'xsi:type replaces the declared class by an object class '
+             'only: a simple type keeps its declared reader (Date for '
+             'DateTime, Uuid for Unicode, Double for Decimal have other '
+             'native types) and an Array is not replaced by the Iterable that '
+             'shares its type name')
+    from ..flow import entails
+    x = prog.cls('spyne.protocol.xml:XmlDocument')
+    f = x.methods.get('from_element')
+    if f is None:
+        raise AnalysisError('XmlDocument.from_element', 'not found')
+    declared = f.params()[2] if len(f.params()) > 2 else 'cls'
+    fs = foreign_sources(f, declared)
+    n = 0
+    for a in walk_no_defs(f.node):
+        if not (isinstance(a, ast.Assign) and len(a.targets) == 1 and
+                isinstance(a.targets[0], ast.Name) and
+                a.targets[0].id == declared and
+                isinstance(a.value, ast.Name) and a.value.id in fs):
+            continue
+        n += 1
+        new = a.value.id
+        g = flatten_guards(guards_at(a, stop=f.node))
+        where = '%s:%d' % (f.module.relpath, a.lineno)
+        ok1 = entails(g, 'issubclass(%s, ComplexModelBase)' % new)
+        ok2 = entails(g, 'not issubclass(%s, Iterable) or issubclass(%s, '
+                      'Iterable)' % (new, declared))
+        res.ob('R11', where, 'from_element: %s = %s %s, %s' % (
+            declared, new, 'only for object classes' if ok1 else
+            'for any class', 'never an Iterable for a plain Array' if ok2
+            else 'also an Iterable for a plain Array'),
+            'ok' if ok1 and ok2 else 'VIOLATED')
+        if not ok1:
+            res.finding('R11', 'XmlDocument.from_element|simple-type-'
+                        'retagged', where, 'xsi:type may replace a declared '
+                        'simple type by any class that inherits from it: '
+                        'xsi:type="xs:date" on a DateTime member delivers a '
+                        'date, xs:double on a Decimal a float, a uuid type on '
+                        'Unicode a UUID object')
+        if not ok2:
+            res.finding('R11', 'XmlDocument.from_element|array-retagged-as-'
+                        'iterable', where, 'xsi:type naming the array\'s own '
+                        'type may resolve to the Iterable customization that '
+                        'shares the class key: user code gets a generator '
+                        'where a list is declared')
+    res.floor('R11', 'class replacements in from_element', n, 1)
+
+
 def run(prog, res, tier):
     guard_helpers(prog)
     res.run_rule(rule_r1, prog, res)
@@ -1076,6 +1124,7 @@ def run(prog, res, tier):
     res.run_rule(rule_r8, prog, res)
     res.run_rule(rule_r9, prog, res)
     res.run_rule(rule_r10, prog, res)
+    res.run_rule(rule_r11, prog, res)
 
 
 _X = 'spyne/protocol/xml.py'
@@ -1085,6 +1134,26 @@ _Y = 'spyne/protocol/yaml.py'
 _C = 'spyne/model/complex.py'
 
 MUTANTS = [
+    Mutant('xsi-type-retags-simple-types', 'R11', 'fire', _X,
+           in_func('XmlDocument.from_element',
+                   "                if issubclass(newclass, ComplexModelBase) "
+                   "and not (",
+                   "                if issubclass(newclass, ModelBase) and "
+                   "not ("), 'simple-type-retagged'),
+    Mutant('xsi-type-array-to-iterable', 'R11', 'fire', _X,
+           in_func('XmlDocument.from_element',
+                   "                                            and not "
+                   "issubclass(cls, Iterable)):",
+                   "                                            and "
+                   "issubclass(cls, Iterable)):"),
+           'array-retagged-as-iterable'),
+    Mutant('xsi-type-guard-split', 'R11', 'benign', _X,
+           in_func('XmlDocument.from_element',
+                   "                if issubclass(newclass, ComplexModelBase) "
+                   "and not (",
+                   "                if not issubclass(newclass, "
+                   "ComplexModelBase):\n                    pass\n"
+                   "                elif not ("), None),
     Mutant('yaml-admits-dates-as-text', 'R4', 'fire', _Y,
            in_func('YamlDocument',
                    "    text_based = True\n",
@@ -1185,9 +1254,8 @@ MUTANTS = [
     Mutant('xsi-type-unguarded', 'R1', 'fire', _X,
            in_func('XmlDocument.from_element',
                    r"                if not self\.is_substitutable\(newclass, cls\):"
-                   r"\n(.*?)raise ValidationError\(xsi_type\)\n\n"
-                   r"                cls = newclass",
-                   "                cls = newclass", regex=True), 'newclass'),
+                   r"\n(.*?)raise ValidationError\(xsi_type\)\n",
+                   "", regex=True), 'newclass'),
     Mutant('xsi-type-cache-bypass', 'R1', 'fire', _X,
            in_func('XmlDocument.from_element',
                    "                newclass = ctx.app.interface.classes.get("
